@@ -18,7 +18,8 @@ Scenario families (inp["family"]); every family is compared with the model of th
             is run on a freshly built network
   deepcopy  the freshly built Simulator is duplicated with copy.deepcopy; the COPY is run first (it must
             behave like the model and be bound to its own scheduler / interface / network), then the original
-Orthogonal options: inp["late_fill"] (the Simulator is built around a still empty EventQueue that the
+Orthogonal options: inp["via_update"] (the scheduler object has already been registered with another
+Simulator and is installed with Simulator.update_scheduler()), inp["late_fill"] (the Simulator is built around a still empty EventQueue that the
 caller fills afterwards through its own reference), inp["others"] (bare acnsim.Event and user-defined
 Event subclasses in the queue, also after the last departure), inp["copy_on_resume"] (resume family: the
 interrupted simulator is deep-copied between two run() calls and the copy is resumed).
@@ -224,7 +225,9 @@ def gen_input(rng, tier="quick", malformed=None, family=None, shared_ids=False):
                idstyle=rng.choice(ID_STYLES), family=family or "plain",
                np_types=rng.random() < 0.3, others=others,
                late_fill=(family != "reuse" and rng.random() < 0.2), fill_one_by_one=rng.random() < 0.5,
-               guest_plugins=rng.random() < 0.15)
+               guest_plugins=rng.random() < 0.15,
+               # the scheduler object has already served ANOTHER Simulator and is installed with update_scheduler()
+               via_update=rng.random() < 0.2)
     if family == "resume":
         how = rng.choice(["same", "copy", "json"])       # resume the same object / a deep copy / a JSON reload
         inp["copy_on_resume"] = how == "copy"
@@ -808,7 +811,16 @@ def build(inp, rec, shared=None):
         eq.add_events(events)
     net.rec = rec
     alg.configure(rec)
-    sim = A["acnsim"].Simulator(net, alg, eq, START, period=inp["period"], verbose=False)
+    if inp.get("via_update"):
+        if alg._interface is None:          # make the algorithm object one that another simulator has used
+            rec.decoy = A["acnsim"].Simulator(make_network(inp, nm), alg, A["EventQueue"](), START + timedelta(days=3),
+                                              period=inp["period"], verbose=False)
+        sim = A["acnsim"].Simulator(net, None, eq, START, period=inp["period"], verbose=False)
+        sim.update_scheduler(alg)
+        if alg._interface._simulator is not sim or sim.max_recompute != inp["max_recompute"]:
+            rec.flag("after update_scheduler() the scheduler's interface does not point at this simulator")
+    else:
+        sim = A["acnsim"].Simulator(net, alg, eq, START, period=inp["period"], verbose=False)
     if late:            # the caller keeps its own reference to the (still empty) queue and fills it now
         if inp.get("fill_one_by_one"):
             for e in events:
